@@ -100,7 +100,11 @@ class _Part:
     def __exit__(self, et, ev, tb):
         from .facts import AnalysisError
         if et is not None and issubclass(et, AnalysisError):
-            self.run.deferred_errors.append(f"[{self.name}] {ev}")
+            if hasattr(ev, "construct") and hasattr(ev, "where"):
+                # a language-level defect on a path this analysis has to read (sym.Pitfall): a verdict, not a give-up
+                self.run.ob("LP", ev.construct, False, ev.where, ev.msg)
+            else:
+                self.run.deferred_errors.append(f"[{self.name}] {ev}")
             return True
         return False
 
